@@ -54,7 +54,7 @@ def prog_term(p):
                                                          d["nobj"], d["nint"]))
     calls = []
     for cobs in (p.get("calls") or []):
-        calls.append("(mkcall %d %s %s %s %s)" % (cobs["f"], cobs["args_coq"], xres(cobs["res"]), xres(cobs.get("oracle")), cobs["trace"]))
+        calls.append("(mkcall %d %s %s %s %s %d)" % (cobs["f"], cobs["args_coq"], xres(cobs["res"]), xres(cobs.get("oracle")), cobs["trace"], cobs.get("vl0", 0)))
     return "(mkpcase [%s] [%s] %s [%s])" % (";\n  ".join(p["funs"]), ";\n  ".join(dumps),
                                             "true" if p.get("compile_err") else "false", ";\n  ".join(calls))
 
